@@ -142,6 +142,13 @@ def run(rep, tier, seed, proof_id='C16'):
             b = (rng.bytes(4) + bytes(3) + rng.bytes(30)) * rng.range(1, 30)
         if not quick and rng.chance(1, 50): b = b * 40
         lines.append('snappy_encode %s' % hx(b)); meta.append(('snappy_encode', b))
+    # literal-length boundaries of the emitter (tag forms 60/61/62: 1, 2, 3 length bytes): one literal of
+    # every length around 60, 256 and 65536, alone and between two compressible runs
+    lit_lens = list(range(56, 66)) + list(range(250, 264)) + ([65534, 65535, 65536, 65537, 65538] if not quick else [65536, 65537])
+    for L in lit_lens:
+        r = rng.bytes(L)
+        for b in ([r, b'a' * 40 + r + b'a' * 40] if L < 60000 else [r]):
+            lines.append('snappy_encode %s' % hx(b)); meta.append(('snappy_encode', b))
     c1, m1 = both(lines, 'stage1-codecs')
 
     # oracles + derived cases
